@@ -13,7 +13,7 @@ REGISTRY = {
     # class -> kind
     'Port': 'queueing', 'REDPort': 'queueing', 'Wire': 'queueing', 'TokenBucket': 'queueing',
     'TwoRateTokenBucket': 'queueing', 'MultiQueueScheduler': 'queueing', 'WFQ': 'queueing', 'VC': 'queueing',
-    'DRR': 'queueing',
+    'DRR': 'queueing', 'SP': 'queueing',
     'FlowDemux': 'router', 'RandomDemux': 'router', 'FIBDemux': 'router', 'SimplePacketSwitch': 'router',
     'FairPacketSwitch': 'router',
     'Hub': 'replicator', 'Splitter': 'replicator', 'NSplitter': 'replicator',
@@ -132,7 +132,7 @@ def run_forwards_dequeued(ctx, prop):
                 for e in p.effects:
                     if e.kind == 'call' and e.target.endswith('.put') and ('out' in e.target.split('.')[-2] if '.' in e.target else False):
                         fwd.append((e, e.args[0] if e.args else ''))
-                    elif e.kind == 'call' and e.target.endswith('.process') and e.args and 'send_packet(' in e.args[0]:
+                    elif e.kind == 'call' and e.target.endswith('.process') and e.args and _is_transmission_arg(c, e.args[0]):
                         fwd.append((e, e.args[0]))
                 if not fwd and not deq:
                     continue
@@ -142,9 +142,9 @@ def run_forwards_dequeued(ctx, prop):
                 for e, a in fwd:
                     if 'copy(' in a or 'Packet(' in a:
                         ok, msg = False, 'forwards a copy / a new packet (%s)' % a
-                    elif not ('@yield#' in a or 'head_of_line' in a or '@L' in a):
+                    elif not ('@yield#' in a or 'head_of_line' in a or '@L' in a or '.get().value' in a):
                         ok, msg = False, 'forwards a value that did not come out of the queue (%s)' % a
-                if ok and len(deq) >= 1 and len(fwd) > len(deq) + (1 if 'head_of_line' in ''.join(a for _, a in fwd) else 0):
+                if ok and len(deq) >= 1 and len(fwd) > len(deq) + (1 if 'head_of_line' in ''.join(a for _, a in fwd) else 0) + ''.join(a for _, a in fwd).count('.get().value'):
                     ok, msg = False, '%d forwards for %d dequeues' % (len(fwd), len(deq))
                 ctx.ob(rule, ok)
                 if ok:
@@ -471,6 +471,9 @@ def send_packet_awaited(ctx, prop, only=None):
                 p2 = parents.get(p1)
                 ok = isinstance(p1, ast.Call) and isinstance(p1.func, ast.Attribute) and p1.func.attr == 'process' \
                     and isinstance(p2, ast.Yield)
+                if not ok and isinstance(p1, ast.YieldFrom) and f.cls is not None and f.name in transmission_methods(f.cls):
+                    # delegated inside a transmission method: that method in turn must be spawned and awaited
+                    ok = _all_uses_awaited(ctx.repo, f.cls, f.name)
                 ctx.ob(rule, ok)
                 construct = '%s::%s' % (f.module.relpath, f.qualname)
                 if ok:
@@ -479,6 +482,27 @@ def send_packet_awaited(ctx, prop, only=None):
                     ctx.violation(rule, construct, 'send_packet not awaited', '%s starts a transmission without waiting for it to end (overlap / abandoned transmission)' % f.qualname,
                                   where='%s:%d' % (f.module.relpath, node.lineno))
     ctx.floor(rule, n, 1 if only and len(only) == 1 else 3 if only else 6, 'uses of send_packet')
+
+
+def _all_uses_awaited(repo, cls, meth) -> bool:
+    uses = 0
+    for g in repo.all_functions():
+        if g.cls is None or cls not in g.cls.mro() and g.cls not in cls.mro():
+            continue
+        parents = {}
+        for node in ast.walk(g.node):
+            for ch in ast.iter_child_nodes(node):
+                parents[ch] = node
+        for node in walk_local(g.node):
+            if isinstance(node, ast.Call) and isinstance(node.func, ast.Attribute) and node.func.attr == meth \
+                    and isinstance(node.func.value, ast.Name) and node.func.value.id == 'self':
+                uses += 1
+                p1 = parents.get(node)
+                p2 = parents.get(p1)
+                if not (isinstance(p1, ast.Call) and isinstance(p1.func, ast.Attribute) and p1.func.attr == 'process'
+                        and isinstance(p2, ast.Yield)):
+                    return False
+    return uses > 0
 
 
 def server_yield_whitelist(ctx, prop):
@@ -515,7 +539,7 @@ def server_yield_whitelist(ctx, prop):
                         kind = 'wakeup' if guard else 'wake-up wait not guarded by total_packets == 0 in the same instant'
                     elif callee.endswith('.get') and ('store' in callee):
                         kind = 'dequeue'
-                    elif callee.endswith('.process') and args and args[0].startswith('self.send_packet('):
+                    elif callee.endswith('.process') and args and _is_transmission_arg(c, args[0]):
                         kind = 'send'
                     key = (e.lineno, v, kind)
                     if key in seen:
@@ -566,7 +590,7 @@ def sp_rescan(ctx, prop):
         if reg.kind != 'for':
             continue
         for p in reg.paths:
-            sends = [e for e in p.effects if e.kind == 'call' and e.target.endswith('.process') and e.args and 'send_packet(' in e.args[0]]
+            sends = [e for e in p.effects if e.kind == 'call' and e.target.endswith('.process') and e.args and _is_transmission_arg(c, e.args[0])]
             if not sends:
                 continue
             n += 1
@@ -873,3 +897,81 @@ def interrupt_guards_imply_precondition(ctx, prop):
                               'Timer.%s interrupts %s on the path [%s]: the guard does not imply that the process has not terminated (RuntimeError in the expiry instant)' % (mname, recv, p.cond_str()[:160]),
                               where='%s:%d' % (f.module.relpath, ints[0].lineno))
     ctx.floor(rule, n, 1, 'interrupt sites in Timer')
+
+
+# ---------------------------------------------------------------------------- transmission helpers
+
+def transmission_methods(cls) -> set:
+    """send_packet and every generator method that delegates to it with `yield from self.send_packet(..)`
+    (directly or through another such method): spawning one of them is starting a transmission"""
+    out = {'send_packet'}
+    changed = True
+    while changed:
+        changed = False
+        for c in cls.mro():
+            for m, f in c.methods.items():
+                if m in out or not f.is_generator():
+                    continue
+                for n in walk_local(f.node):
+                    if isinstance(n, ast.YieldFrom) and isinstance(n.value, ast.Call) and isinstance(n.value.func, ast.Attribute) \
+                            and isinstance(n.value.func.value, ast.Name) and n.value.func.value.id == 'self' and n.value.func.attr in out:
+                        out.add(m)
+                        changed = True
+    return out
+
+
+def _is_transmission_arg(cls, arg: str) -> bool:
+    return any(arg.startswith('self.%s(' % m) for m in transmission_methods(cls))
+
+
+def departure_bookkeeping_atomic(ctx, prop, only=None):
+    """State that put() consults (backlog, active set, virtual time, credit) must be brought up to date with a
+    departure in the very step in which the transmission ends.  If the server loop updates it only after it has been
+    resumed (one event later), an arrival in the instant of the departure sees stale state: a class still 'active'
+    after the scheduler emptied, credit kept after the queue emptied."""
+    rule = prop + '.C.departure_atomic'
+    n = 0
+    for c in ctx.repo.subclasses('Scheduler', strict=True):
+        if only and c.name not in only:
+            continue
+        run = c.lookup('run')
+        put = c.lookup('put')
+        if run is None or put is None or not run.is_generator() or elements_is_abstract(run.node):
+            continue
+        # fields put() reads
+        reads = set()
+        for p in ctx.paths(c, put, Options(), primary=False):
+            text = p.cond_str() + ' ; ' + ' ; '.join(e.key() for e in p.effects)
+            reads |= set(re.findall(r'self\.(\w+)', text))
+        reads -= {'env', 'rate', 'debug', 'flow2class', 'weights', 'vticks', 'out', '_out', 'stores', 'store',
+                  'packets_available', 'packets_received', 'priorities', 'quantum', 'MIN_QUANTUM'}
+        late = {}
+        for reg in loops_of(ctx.paths(c, run, Options(), primary=False)):
+            for p in reg.paths:
+                seen_tx = False
+                for e in p.effects:
+                    if e.kind == 'call' and e.target.endswith('.process') and e.args and _is_transmission_arg(c, e.args[0]):
+                        seen_tx = True
+                    elif seen_tx and e.kind in ('write', 'del') and e.target.startswith('self.'):
+                        fld = e.target.split('.')[1].split('[')[0]
+                        if fld in reads:
+                            late.setdefault(fld, e.lineno)
+                    elif seen_tx and e.kind == 'call' and e.target.startswith('self.') and e.target.split('.')[-1] in ('add', 'remove', 'discard', 'append', 'pop', 'clear'):
+                        fld = e.target.split('.')[1]
+                        if fld in reads:
+                            late.setdefault(fld, e.lineno)
+        n += 1
+        ok = not late
+        ctx.ob(rule, ok)
+        construct = '%s::%s.run' % (run.module.relpath, c.name)
+        if ok:
+            ctx.sample(rule, construct, 'nothing that put() reads (%s) is updated by the server loop after it resumes from a transmission' % sorted(reads)[:8])
+        else:
+            ctx.violation(rule, construct, 'late update of %s' % sorted(late),
+                          '%s.run updates %s only after the server process has been resumed from the transmission; put() reads them, so an arrival in the instant of a departure sees the state of before the departure' % (c.name, sorted(late)),
+                          where='%s:%d' % (run.module.relpath, min(late.values())))
+    ctx.floor(rule, n, 1 if only else 5, 'scheduler classes')
+
+
+def elements_is_abstract(fn) -> bool:
+    return _is_abstract(fn)
